@@ -123,8 +123,7 @@ def monitor_records(spec, sem, result):
     return out
 
 
-def run_monitor(records, timeout=1200):
-    """Run the PsTrace monitors (TLC) over the records. Returns (bad, tlc result)."""
+def _monitor_shard(records, timeout):
     wd = vlib.scratch("pstrace")
     with open(os.path.join(wd, "trace.ndjson"), "w") as f:
         for r in records:
@@ -137,6 +136,30 @@ def run_monitor(records, timeout=1200):
     if o["n"] != len(records):
         raise vlib.Infra("PsTrace consumed %d of %d records" % (o["n"], len(records)))
     return o["bad"], res
+
+
+def run_monitor(records, timeout=2400, shard=60000):
+    """Run the PsTrace monitors (TLC) over the records, in shards cut at run
+    boundaries. Returns (bad, tlc result with summed counts)."""
+    from concurrent.futures import ThreadPoolExecutor
+    shards, cur = [], []
+    for r in records:
+        if r["ev"] == "RunBegin" and len(cur) >= shard:
+            shards.append(cur)
+            cur = []
+        cur.append(r)
+    if cur:
+        shards.append(cur)
+    with ThreadPoolExecutor(8) as ex:
+        parts = list(ex.map(lambda sh: _monitor_shard(sh, timeout), shards))
+    bad = []
+    for b, _ in parts:
+        bad += b
+    res = parts[0][1]
+    res.distinct = sum(p[1].distinct for p in parts)
+    res.generated = sum(p[1].generated for p in parts)
+    res.wall = max(p[1].wall for p in parts)
+    return bad, res
 
 
 def schedules_for(prog, sem, tier, rng, emphasis):
